@@ -647,8 +647,53 @@ def judge(case, impl_out, drift, m, sp, res, findings_known):
             res.known_seen[FINDING_STALE] = res.known_seen.get(FINDING_STALE, 0) + 1
         return True
     if not sp["literal"]:
-        res.known_seen[FINDING_LITERAL] = res.known_seen.get(FINDING_LITERAL, 0) + 1
+        # since fix 447541f (fact cacheOwnerOnly, obligation cfg_cache_owner_only) the literal clause is the property's
+        # clause for plain callers: a schedule on which the model (= the implementation, checked above) returns a value
+        # that was not the source's content at any instant of the plain call is a failing input, not a known finding
+        res.disagree("spec", inp, impl_out, mod, sp,
+                     note="a plain caller (a thread outside any block of its own) returned a value that was not the "
+                          "content of its source at any moment of its call (the cache of another thread's block served it)")
+        return True
+    why = owner_unstable(case, impl_out)
+    if why:
+        res.disagree("spec", inp, impl_out, mod, sp, note=why)
+        return True
     return False
+
+
+def owner_unstable(case, impl_out):
+    """first-read clause under threads, judged on the implementation's results alone: inside ONE outermost block of a
+    thread every call of one method returns one value (an entry of the owner's cache is never replaced). Returns a
+    description or None."""
+    for t, prog in enumerate(case["progs"]):
+        outs = impl_out.get(str(t), [])
+        if any("at" in o for o in outs):
+            continue                      # an exception out of enter/exit/as_dict: results no longer align with the items
+        depth, first, i = 0, {}, 0
+        for it in prog:
+            if it[0] == "acquire":
+                if depth == 0:
+                    first = {}
+                depth += 1
+            elif it[0] == "exit":
+                depth = max(0, depth - 1)
+            else:
+                keys = [it[1]] if it[0] == "call" else [None] * len(set(it[1]))
+                if it[0] == "asdict":
+                    names = [TARGETS[case["target"]][k][0] for k in it[1]]
+                    idx = {TARGETS[case["target"]][k][0]: k for k in it[1]}
+                    keys = [idx[n] for n in asdict_order(names)]
+                for k in keys:
+                    if i >= len(outs):
+                        break
+                    o = outs[i]
+                    i += 1
+                    if depth > 0 and o.get("kind") == "ok":
+                        if k in first and first[k] != o["value"]:
+                            return ("thread %d: inside ONE block %s() answered %r and later %r (the owner's first read was "
+                                    "replaced)" % (t, TARGETS[case["target"]][k][0], first[k], o["value"]))
+                        first.setdefault(k, o["value"])
+    return None
 
 
 def correspond_concurrent(ctx, res, cases=None):
@@ -717,7 +762,8 @@ def _case_fails(ctx, impl, case):
         return True, impl_out, mod, sp
     if drift or impl_out != mod:
         return False, impl_out, mod, sp
-    return (not sp["interval"]) or sp["spurious"], impl_out, mod, sp
+    return ((not sp["interval"]) or sp["spurious"] or (not sp["literal"])
+            or owner_unstable(case, impl_out) is not None), impl_out, mod, sp
 
 
 def shrink(ctx, d):
